@@ -572,7 +572,17 @@ func (f *spFam) Random(rng *rand.Rand) M {
 			return M{"a": "postproof", "s": "p1", "f": []interface{}{f.rootLabel(uf.Merkle), f.c.LabelOf(uf.Owner), uf.Start}}
 		}
 	case r < 70 && !full:
-		return M{"a": "mkgauge", "amt": int64([]int{1000, 50000, 240000}[rng.Intn(3)]), "days": int64([]int{2, 10, 30}[rng.Intn(3)])}
+		days := int64([]int{2, 10, 30}[rng.Intn(3)])
+		if rng.Intn(2) == 0 { // end exactly when a live gauge opened earlier ends (same end, different start)
+			for _, g := range k.GetAllPaymentGauges(f.ctx) {
+				rem := g.End.Sub(f.ctx.BlockTime())
+				if rem > 0 && rem%(24*time.Hour) == 0 && g.Start.Before(f.ctx.BlockTime()) {
+					days = int64(rem / (24 * time.Hour))
+					break
+				}
+			}
+		}
+		return M{"a": "mkgauge", "amt": int64([]int{1000, 50000, 240000}[rng.Intn(3)]), "days": days}
 	case r < 72:
 		rp := [][2]int64{{25, 40}, {0, 10}, {5, 10}, {10, 60}, {40, 60}, {90, 10}, {0, 0}, {25, 5}}[rng.Intn(8)]
 		return M{"a": "setratios", "ref": rp[0], "pol": rp[1]}
